@@ -62,7 +62,10 @@ def gen_finite_type(H: Chooser, refs, level=0):
         return ["cls", H.pick(refs)]
     if k == "annlist":
         lo = 1 + H.draw(2)
-        inner = ["cls", H.pick(refs)] if (refs and H.draw(3)) else ["ann", ["int"], ["IntRange", 0, 1]]
+        if refs and H.draw(4) == 0:
+            inner = ["union", [["cls", H.pick(refs)], ["bool"]]]  # recursion may run only through a union nested in a list
+        else:
+            inner = ["cls", H.pick(refs)] if (refs and H.draw(3)) else ["ann", ["int"], ["IntRange", 0, 1]]
         return ["ann", ["list", inner], [H.pick(["ListSizeBetween", "LSBWLO"]), lo, lo + H.draw(2)]]
     if k == "tuple":
         return ["tuple", [gen_finite_type(H, refs, 1) for _ in range(1 + H.draw(2))]]
@@ -422,7 +425,35 @@ def run(ctx):
         seen = set()
         contexts = set()
         decisions = 0
-        for it in range(n_create):
+        # F13 (history): afterwards a SECOND grammar is extracted from the same classes with one production left out, and
+        # creation continues on it in the same process (deciders / grammars must not carry anything over)
+        second = None
+        if mode == "grow" and H.draw(3) == 2:
+            import copy
+            from geneticengine.grammar.grammar import extract_grammar
+
+            spec2 = copy.deepcopy(spec)
+            cands = [n for n in spec2["considered"] if ref.parent(n) is not None]
+            if len(cands) >= 2:
+                drop = H.pick(cands)
+                spec2["considered"] = [n for n in spec2["considered"] if n != drop]
+                ref2 = Ref(spec2, b)
+                if drop not in ref2.registered() and ref2.mind_start() < INF:
+                    try:
+                        g2 = extract_grammar([b.cls[n] for n in spec2["considered"]], b.cls[spec2["start"]])
+                        d2 = max(d, ref2.mind_start())
+                        lang2 = Lang(ref2)
+                        lang2.d = d2
+                        if lang2.count(["cls", spec2["start"]], d2) <= lang2.cap:
+                            second = (spec2, ref2, g2, lang2, d2)
+                            ctx.faults["carry_over"] += 1
+                            ctx.stat("second_grammar_phases")
+                    except Exception:
+                        second = None
+        for it in range(n_create + (n_create // 2 if second else 0)):
+            if it == n_create:
+                spec, ref, g, lang, d = second
+                rm = ref.mind_start()
             policy = "uniform" if it % 4 else H.pick(["edge", "lo", "hi"])
             rnd = SimRandom(ctx, policy, log=False)
             events = []
